@@ -87,9 +87,9 @@ def gap_codes():
     return _GAP_CODES
 
 
-def run(events):
+def run(events, same_tick=False):
     p = TracesParser(E.codes(), {}, {})
-    out = list(p.feed_generator(E.restamp(events)))
+    out = list(p.feed_generator([e._replace(timestamp=7) for e in events] if same_tick else E.restamp(events)))
     return out, p
 
 
@@ -183,7 +183,7 @@ def expected_slots(name, texts):
     raise KeyError(name)
 
 
-def judge_enclosed(name, texts, gaps):
+def judge_enclosed(name, texts, gaps, same_tick=False):
     """texts: list of looked-up texts; gaps: dict position -> unrelated kind inserted before lookup i (or after last)."""
     s, e = D.in_domain(name, 'se', (0x1111, 0x2222, 0x3333, 0x4444), (0, 0x55, 0x66, 0x77), 1)
     evs = [E.ev(name, 1, s)]
@@ -195,7 +195,7 @@ def judge_enclosed(name, texts, gaps):
     if len(texts) in gaps:
         evs.append(unrelated(gaps[len(texts)]))
     evs.append(E.ev(name, 2, e))
-    out, p = run(evs)
+    out, p = run(evs, same_tick)
     bad = []
     mine = [t for t in out if t.ktraces[0].eventid == evs[0].eventid]
     lks = [t for t in out if type(t).__name__ == 'VfsLookup']
@@ -272,26 +272,35 @@ class C08(Check):
                             for pos in range(k + 1):
                                 for kind in ('K', 'U', 'W', 'T', 'D', 'X', 'L'):
                                     self._enc(acc, name, texts, {pos: kind})
+                        if k >= 2:
+                            # the SAME text looked up k times (only the vnode ids differ), on increasing ticks and all on one tick
+                            for pat in range(NPAT):
+                                same = [text(L, pat)] * k
+                                self._enc(acc, name, same, {})
+                                self._enc(acc, name, same, {}, same_tick=True)
+                            self._enc(acc, name, texts, {}, same_tick=True)
                         if li in (4, 6, 8):
                             for pos in range(k):
                                 for kind in ('K', 'W', 'T', 'D', 'X', 'pair'):
                                     self._enc(acc, name, texts, {100 + pos: kind})
 
-    def _enc(self, acc, name, texts, gaps):
+    def _enc(self, acc, name, texts, gaps, same_tick=False):
         try:
-            bad = judge_enclosed(name, texts, gaps)
+            bad = judge_enclosed(name, texts, gaps, same_tick)
         except Exception as ex:
             bad = [('raised:' + type(ex).__name__ + '@' + name, {'error': repr(ex)[:200]})]
         nrec = sum(len(B.lookup_chunks(0, t)) for t in texts)
         acc.case(nontrivial=any(len(t.encode()) > 24 for t in texts), transitions=nrec + 2 + len(gaps),
                  state=h64((name, nrec)), outcome=h64((name, len(texts), not bad)))
         for sig, detail in bad:
-            acc.violation(sig, {'kind': 'enclosed', 'decoder': name, 'texts': texts, 'gaps': {str(k): v for k, v in gaps.items()}}, detail)
+            acc.violation(sig + (':all-records-on-one-tick' if same_tick else ''), {'kind': 'enclosed', 'decoder': name, 'texts': texts, 'gaps': {str(k): v for k, v in gaps.items()},
+                                'same_tick': same_tick}, detail)
 
     def replay(self, case):
         if case['kind'] == 'standalone':
             return judge_standalone(case['what'], case['len'], case['pattern'], case.get('gap'))
-        return judge_enclosed(case['decoder'], case['texts'], {int(k): v for k, v in case['gaps'].items()})
+        bad = judge_enclosed(case['decoder'], case['texts'], {int(k): v for k, v in case['gaps'].items()}, case.get('same_tick', False))
+        return [(sig + (':all-records-on-one-tick' if case.get('same_tick') else ''), d) for sig, d in bad]
 
 
 if __name__ == '__main__':
